@@ -82,6 +82,72 @@ Theorem C19_credit_order_free_refuted :
 Proof. exact credit_order_free_refuted. Qed.
 Print Assumptions C19_credit_order_free_refuted.
 
+(* EVM signing sessions (Executor.Execute).  [evm_sessions mid bs] = the sessions the model starts for
+   the batch list bs (members per position): a batch's session is determined by the message id and
+   the batch's position alone - nothing else (no schedule, no other batch) enters. *)
+Theorem C19_evm_session_is_position_only : forall mid bs ms sids,
+  In (ms, sids) (evm_sessions mid bs) <->
+  exists k, nth_error bs k = Some ms /\ ms <> [] /\ sids = [evm_sid mid (N.of_nat k)].
+Proof. exact evm_sessions_position. Qed.
+Print Assumptions C19_evm_session_is_position_only.
+
+(* ... it is the session id of C19_same_deposit_same_ids (message id + batch index) ... *)
+Theorem C19_evm_sid_is_session_id : forall mid k, evm_sid mid k = session_id_evm mid (Z.of_N k).
+Proof. exact evm_sid_is_session_id. Qed.
+Print Assumptions C19_evm_sid_is_session_id.
+
+(* ... and different batches of one message never share a session id. *)
+Theorem C19_evm_sid_injective : forall mid i j, evm_sid mid i = evm_sid mid j -> i = j.
+Proof. exact evm_sid_inj. Qed.
+Print Assumptions C19_evm_sid_injective.
+
+Theorem C19_evm_hashed_spec : forall bs ms, In ms (evm_hashed bs) <-> In ms bs /\ ms <> [].
+Proof. exact evm_hashed_in. Qed.
+Print Assumptions C19_evm_hashed_spec.
+
+(* The judge of the session cases accepts the model under any number of repetitions, and whatever it
+   accepts - the implementation's observations under several goroutine schedules - equals the
+   specification; in particular any two observed schedules show the same (members -> session id). *)
+Theorem C19_session_judge_accepts_model : forall mid bs n m,
+  sess_ok mid bs (repeat (evm_sessions mid bs) n) (repeat (evm_hashed bs) m) = true.
+Proof. exact sess_ok_model. Qed.
+Print Assumptions C19_session_judge_accepts_model.
+
+Theorem C19_session_judge_sound : forall mid bs runs hashed,
+  sess_ok mid bs runs hashed = true ->
+  (forall r, In r runs -> r = evm_sessions mid bs) /\ (forall h, In h hashed -> h = evm_hashed bs).
+Proof. exact sess_ok_sound. Qed.
+Print Assumptions C19_session_judge_sound.
+
+Theorem C19_sessions_schedule_free : forall mid bs runs hashed r1 r2,
+  sess_ok mid bs runs hashed = true -> In r1 runs -> In r2 runs -> r1 = r2.
+Proof. exact sess_ok_schedule_free. Qed.
+Print Assumptions C19_sessions_schedule_free.
+
+(* Bitcoin executor (Executor.Execute): [bexec_spec props] = what the goroutines of the model work on
+   for a delivery of proposals (deposit nonce, resource id): each a resource together with exactly
+   that resource's proposals in delivery order (so the session <message id>-<resource id> signs the
+   transaction of that resource), every resource once. *)
+Theorem C19_btc_exec_group_is_resource_only : forall props ms r,
+  In (ms, r) (bexec_spec props) ->
+  exists rid, r = Some rid /\ ms = map fst (for_dest (@snd N N) rid props) /\ ms <> [].
+Proof. exact bexec_spec_in. Qed.
+Print Assumptions C19_btc_exec_group_is_resource_only.
+
+Theorem C19_btc_exec_resources_distinct : forall props, NoDup (map snd (bexec_spec props)).
+Proof. exact bexec_spec_resources_distinct. Qed.
+Print Assumptions C19_btc_exec_resources_distinct.
+
+Theorem C19_btc_exec_judge_accepts_model : forall props n,
+  bexec_ok props (repeat (bexec_spec props) n) = true.
+Proof. exact bexec_ok_model. Qed.
+Print Assumptions C19_btc_exec_judge_accepts_model.
+
+Theorem C19_btc_exec_judge_sound : forall props runs,
+  bexec_ok props runs = true -> forall r, In r runs -> r = bexec_spec props.
+Proof. exact bexec_ok_sound. Qed.
+Print Assumptions C19_btc_exec_judge_sound.
+
 (* the boolean cell test used by the judge is the statement of C19_ranges_are_cells *)
 Theorem C19_is_cell_spec : forall i s e, is_cell i s e = true <-> (s mod i = 0 /\ e = s + i - 1).
 Proof. exact is_cell_spec. Qed.
@@ -103,7 +169,25 @@ Example C19_nonvacuous :
   In (OHandle 0 10 14 true) (run wiring_evm c2 (Some 3) [Head 13; Head 40; Handler true]) /\
   message_id 1 2 10 14 = "1-2-10-14"%string /\ btc_message_id 1 2 812345 = "1-2-812345"%string /\
   session_id_evm (message_id 1 2 10 14) 0 = "1-2-10-14-0"%string /\
-  credit_run [3%N; 1%N; 2%N] [2%N; 1%N] = Some 1%N.
+  credit_run [3%N; 1%N; 2%N] [2%N; 1%N] = Some 1%N /\
+  (* left-padded resource ids 0x00..0400 and 0x00..0300: the smaller one is credited *)
+  credit_run [1024%N; 768%N] [1024%N; 768%N] = Some 768%N /\
+  (* a delivery whose first batch is empty and whose 2nd and 3rd batches hold deposits 0,1 and 2 *)
+  evm_sessions "1-2-10-14" [[]; [0%N; 1%N]; [2%N]] =
+    [([0%N; 1%N], ["1-2-10-14-1"%string]); ([2%N], ["1-2-10-14-2"%string])] /\
+  sess_ok "1-2-10-14" [[]; [0%N; 1%N]; [2%N]]
+          [[([0%N; 1%N], ["1-2-10-14-1"%string]); ([2%N], ["1-2-10-14-2"%string])]]
+          [[[0%N; 1%N]; [2%N]]] = true /\
+  (* what the shared-loop-variable defect shows: every goroutine sees the last position / batch *)
+  sess_ok "1-2-10-14" [[]; [0%N; 1%N]; [2%N]]
+          [[([2%N], ["1-2-10-14-2"%string]); ([2%N], ["1-2-10-14-2"%string])]] [] = false /\
+  (* Bitcoin delivery: deposits 0 and 2 of resource 768, deposit 1 of resource 1024 *)
+  bexec_spec [(0%N, 768%N); (1%N, 1024%N); (2%N, 768%N)] =
+    [([0%N; 2%N], Some 768%N); ([1%N], Some 1024%N)] /\
+  bexec_ok [(0%N, 768%N); (1%N, 1024%N); (2%N, 768%N)]
+           [[([0%N; 2%N], Some 768%N); ([1%N], Some 1024%N)]] = true /\
+  bexec_ok [(0%N, 768%N); (1%N, 1024%N); (2%N, 768%N)]
+           [[([1%N], Some 1024%N); ([1%N], Some 1024%N)]] = false.
 Proof.
   cbv zeta. split; [reflexivity|]. split; [right; reflexivity|]. split; [right; reflexivity|].
   split; [vm_compute; auto 20|]. split; [vm_compute; auto 20|]. vm_compute. repeat split.
